@@ -30,6 +30,10 @@ Theorem C20_is_valid_iff : forall m, meta_is_valid m = true <-> m_comment m <> [
 Proof. exact is_valid_iff. Qed.
 Theorem C20_size_error_not_panic : forall m v, read_metadata m SizePkgM v = None <-> parse_i64 (trim v) = None.
 Proof. exact read_size. Qed.
+Theorem C20_read_file : forall c r, pkg_read_file c = Some r <-> utf8_valid c = true /\ r = c.
+Proof. exact pkg_read_file_spec. Qed.
+Theorem C20_read_file_error : forall c, pkg_read_file c = None <-> utf8_valid c = false.
+Proof. exact pkg_read_file_error. Qed.
 
 Example C20_example :
   db_iter [mkdirent (lit "foo-1.0nb2") true [lit "+COMMENT"; lit "+DESC"; lit "+CONTENTS"; lit "+SIZE_PKG"];
